@@ -16,6 +16,8 @@ pub fn gen(tier: &str, r: &mut Rng) -> Vec<String> {
         let mut pdb = match guarded(|| gen_full(r, &o)) { Ok(p) => p, Err(_) => continue };
         // mmCIF keeps five decimals; a share of the values carries a sixth one (off the rounding tie)
         if i % 5 == 0 { for a in pdb.atoms_mut() { let k = r.range(-4, 4) as f64; let _ = a.set_x(a.x() + k * 1e-6); let _ = a.set_b_factor((a.b_factor() + (k.abs()) * 1e-6).max(0.0)); } }
+        // values a hair below / above an integer (rounding and truncation disagree there)
+        if i % 4 == 1 { for a in pdb.atoms_mut() { if r.chance(1, 3) { let k = r.range(-4, 4) as f64; let _ = a.set_y(a.y().round() + k * 1e-6); } if r.chance(1, 6) { let _ = a.set_occupancy((1.0 - r.range(0, 4) as f64 * 1e-6).max(0.0)); } if r.chance(1, 6) { let _ = a.set_z(-(a.z().abs().round()) - r.range(0, 4) as f64 * 1e-6); } } }
         if i % 7 == 0 { pdb.remove_atoms_by(|_| true); pdb.remove_empty(); }
         let meta = match meta_toks(&pdb) { Some(m) => m, None => continue };
         out.push(format!("c04 rt {} {}", meta.join(" "), dump(&pdb)));
